@@ -120,6 +120,44 @@ CLAIMED = {
        "numerically in the bounded tier). LeaveOneOutPseudoLikelihood is covered by the bounded tier only. Stochastic CG/Lanczos path: "
        "assumed exact.",
   technique="contract-based deductive verification: AST-extracted real functions, modular callee contracts (stubs), z3"),
+ "C19": dict(
+  category="other",
+  text="Proof tier (counted): the real RBFCovariance / MaternCovariance (nu = 1/2, 3/2, 5/2) forward and backward are executed symbolically "
+       "(alias-aware tensor domain, so the chains of in-place operations are followed) and the tensor saved for backward is shown equal to "
+       "the SYMBOLIC DERIVATIVE (engine/diff.py) with respect to the lengthscale of the value forward actually returned, for all inputs incl. "
+       "coincident points, batch ranks 0/1 and every upstream gradient; LogNormalCDF.forward/backward: the three branches partition the reals, "
+       "each computes the stated expression (coefficients read from the source) and backward returns grad * phi/Phi-hat on every call of the "
+       "same graph; _phi_for_cholesky_ for every batch rank; _cholesky_backward IS the gradient w.r.t. Sigma (symmetric, and <G, Ldot> = "
+       "<R, Ldot L^T + L Ldot^T> for every lower-triangular tangent) and _TrilNaturalToMuVarSqrt.backward is the push-forward of the "
+       "natural-gradient direction, as polynomial identities for symbolic entries at matrix sizes 1..3 (z3, sympy CAS for the large ones); "
+       "_NaturalToMuVarSqrt._backward / backward deliver d/d eta1 = dmu - 2 dSigma mu, d/d eta2 = dSigma for symbolic size. Bounded tier "
+       "(not counted): fast vs generic kernel paths and finite differences, natural / tril-natural gradients vs autograd of the expectation "
+       "parameterisation (batch shapes () and (3,), m <= 4), prediction gradients vs finite differences, log_normal_cdf vs log_ndtr.",
+  design_ref="DESIGN.md section 5, C19",
+  note="Matrix sizes 1..3 are enumerated for the Cholesky-derivative identities (entries, batch index and tangents symbolic); the distance "
+       "callee of the kernels is a contract (positive homogeneity, proved for covar_dist in C05); sympy's polynomial normal form is trusted "
+       "for the m = 2, 3 identities; exp/sqrt/log/Phi are uninterpreted with ground axioms; floats are reals. CIQ's _NgdInterpTerms.backward "
+       "is NOT under contract and not covered by the bounded tier (contour-integral quadrature: iterative, stochastic).",
+  technique="contract-based deductive verification: AST-extracted real functions, alias-aware elementwise tensor domain, symbolic differentiation, z3 + sympy CAS; refutation by numeric evaluation of the VC"),
+ "C13": dict(
+  category="other",
+  text="Proof tier (counted): the real GaussHermiteQuadrature1D.forward returns (1/sqrt(pi)) sum_k w_k F(sqrt(2v) t_k + m) per batch element "
+       "for an arbitrary elementwise integrand, any number of nodes and batch rank 0..2; with the Hermite-moment contract of numpy's hermgauss "
+       "nodes it integrates the monomials x^p, p = 0..5 (< 2Q) exactly against N(m, v) for all m, v >= 0 (z3); the constructor uses the "
+       "argument or the num_gauss_hermite_locs setting in force at construction (default arguments are given definition-time semantics); "
+       "_OneDimensionalLikelihood.expected_log_prob / log_marginal hand the quadrature exactly log p(y|f) resp. p(y|f) of the distribution "
+       "forward builds, on the given function distribution, and return the result (resp. its log); Bernoulli / Laplace / Student-t / Beta "
+       "conditionals have the documented parameters; Bernoulli.marginal = Bernoulli(Phi(m / sqrt(1+v))), its log_marginal and the {0,1}-label "
+       "integrand of expected_log_prob; SoftmaxLikelihood logits = W f; the three branches of log_normal_cdf. Bounded tier (not counted): "
+       "hermgauss moments for Q <= 64, polynomial exactness on the real module, likelihood integrals against mpmath adaptive integration "
+       "with 20 vs 80 nodes, the probit identity, log_normal_cdf accuracy (2e-3 absolute, rounding for z >= -1, derivative) on a dense grid.",
+  design_ref="DESIGN.md section 5, C13",
+  note="Assumed: numpy hermgauss (dependency; its moment contract is checked numerically only), torch.distributions log densities, the probit "
+       "identity (cited; checked numerically), reals for floats. Exactness is proved for monomials up to degree 5 (linearity gives all "
+       "polynomials of degree <= 5); higher degrees only in the bounded tier. Accuracy of the log_normal_cdf approximation and the truncation "
+       "error of the rule on non-polynomial integrands are numerical-analysis bounds: bounded tier only. One known finding (SoftmaxLikelihood "
+       "legacy transposition for square inputs) is listed in known_findings.json.",
+  technique="contract-based deductive verification: AST-extracted real functions, elementwise tensor domain with binder-free sums, modular callee contracts, z3 + sympy CAS"),
 }
 REASON_NOT_BUILT = "contracts for this property are not built yet in this revision (see DESIGN.md section 9 build order); not claimed until its obligations are discharged by the checker"
 
